@@ -34,11 +34,12 @@ def rowspec(form, q):
 
 
 def observe(t):
-    idx = list(t._data["name"])
+    hasidx = "name" in t._col_names
+    idx = list(t._data["name"]) if hasidx else []
     val = [int(x) for x in t._data["v"]]
     extra = "w" in t._col_names
-    ok = (len({len(t._data[c]) for c in t._col_names}) <= 1) and (("w" in t._data) == extra)
-    return [idx, val, extra], ok
+    ok = (len({len(t._data[c]) for c in t._col_names}) <= 1) and (("w" in t._data) == extra) and (("name" in t._data) == hasidx)
+    return [idx, val, extra, hasidx], ok
 
 
 def apply(t, lab):
@@ -64,6 +65,17 @@ def apply(t, lab):
                 del t["w"]
             else:
                 t.pop("w")
+        elif a == "DelIndex":
+            if lab["form"] == "del":
+                del t["name"]
+            else:
+                t.pop("name")
+        elif a == "AddIndex":
+            col = np.array(list(lab["s"]), dtype=object)
+            if lab["form"] == "item":
+                t["name"] = col
+            else:
+                t.name = col
         elif a == "Probe":
             pass
         else:
@@ -144,7 +156,7 @@ def worker(job, shard, nshards):
             fail(f"{lab['a']} {lab.get('q', '')}: expected outcome {want}, got {exc} {exrepr}", {})
             continue
         obs, rect = observe(t)
-        exp = g.states[d][:3]
+        exp = g.states[d][:4]
         if obs != exp or not rect:
             fail(f"after {lab['a']}: table columns {obs} differ from the specification {exp}", {"obs": obs, "exp": exp})
             continue
